@@ -163,7 +163,7 @@ def run(b, tier, seed):
     fails = {}
     cases = 0
     distinct = set()
-    providers = ["zoneinfo"] if tier == "quick" else ["zoneinfo", "pytz"]
+    providers = ["zoneinfo", "pytz"]
     import icalendar
     for prov in providers:
         icalendar.timezone.tzp.use(prov)
